@@ -4,3 +4,7 @@ import PysamlModel.Props.C02
 #print axioms C02.C02_counterexample
 #print axioms Xsw.XNode.beq_sound
 #print axioms Xsw.registerIds_resolves
+#print axioms C02.C02_flow_adopted_checked
+#print axioms C02.C02_flow_calls_are_checks
+#print axioms C02.C02_flow_adopted_is_assertion
+#print axioms C02.C02_flow_adopted_covered
